@@ -89,6 +89,10 @@ func getTrafficControllersFor(res string) []TrafficShapingController {
 func LoadRules(rules []*Rule) (bool, error) {
 	resRulesMap := make(map[string][]*Rule, 16)
 	for _, rule := range rules {
+		if rule == nil {
+			// a nil element carries no rule: skip it instead of dereferencing it
+			continue
+		}
 		resRules, exists := resRulesMap[rule.Resource]
 		if !exists {
 			resRules = make([]*Rule, 0, 1)
